@@ -34,11 +34,11 @@ type Group struct {
 }
 
 type Plan struct {
-	Seed    uint64
-	Peers   int
-	GTDMs   int  // GossipToTheDeadTime of the subject (short, so that the reaper runs)
-	Faulty  bool // lossy network
-	Groups  []Group
+	Seed   uint64
+	Peers  int
+	GTDMs  int  // GossipToTheDeadTime of the subject (short, so that the reaper runs)
+	Faulty bool // lossy network
+	Groups []Group
 }
 
 var queryKinds = []string{"members", "nummembers", "localnode", "health", "pv", "update", "besteffort", "reliable", "ping", "join"}
